@@ -35,6 +35,148 @@ def _layers(e):
     return n, e
 
 
+def _merge_lits(toks):
+    out = []
+    for t in toks:
+        if t[0] == "lit" and out and out[-1][0] == "lit":
+            out[-1] = ("lit", out[-1][1] + t[1])
+        elif t[0] == "lit" and t[1] == "":
+            continue
+        else:
+            out.append(t)
+    return out
+
+
+def _sym_str(e, env, facts):
+    """Shape of a string expression as a token list: ("lit", text), ("Q",) = quote(str(v), ''), ("QK",) = quote(k, ''), ("RAW",) = str(v)
+    unencoded, ("?", text) = not understood."""
+    if isinstance(e, ast.Constant) and isinstance(e.value, str):
+        return [("lit", e.value)]
+    if isinstance(e, ast.Name):
+        return list(env.get(e.id, [("?", e.id)]))
+    if isinstance(e, ast.BinOp) and isinstance(e.op, ast.Add):
+        return _merge_lits(_sym_str(e.left, env, facts) + _sym_str(e.right, env, facts))
+    if isinstance(e, ast.IfExp):
+        t = src(e.test)
+        for k, v in facts.items():
+            if k == t:
+                return _sym_str(e.body if v else e.orelse, env, facts)
+            if k == "not " + t or t == "not " + k:
+                return _sym_str(e.orelse if v else e.body, env, facts)
+        return [("?", src(e))]
+    if isinstance(e, ast.Call):
+        nm = call_attr(e)
+        if nm == "str" and len(e.args) == 1:
+            if isinstance(e.args[0], ast.Name) and e.args[0].id == "v":
+                return [("RAW",)]
+            return _sym_str(e.args[0], env, facts)
+        if nm in QUO and e.args:
+            inner = _sym_str(e.args[0], env, facts)
+            safe_empty = len(e.args) > 1 and isinstance(e.args[1], ast.Constant) and e.args[1].value == "" or \
+                any(k.arg == "safe" and isinstance(k.value, ast.Constant) and k.value.value == "" for k in e.keywords)
+            if nm == "quote" and safe_empty and inner == [("RAW",)]:
+                return [("Q",)]
+            if nm == "quote" and safe_empty and isinstance(e.args[0], ast.Name) and e.args[0].id == "k":
+                return [("QK",)]
+            return [("?", src(e))]
+        if nm == "format" and isinstance(e.func, ast.Attribute) and isinstance(e.func.value, ast.Constant) and isinstance(e.func.value.value, str) and not e.keywords:
+            parts = e.func.value.value.split("{}")
+            if len(parts) != len(e.args) + 1 or "{" in "".join(parts):
+                return [("?", src(e))]
+            out = [("lit", parts[0])]
+            for a, lit in zip(e.args, parts[1:]):
+                out += _sym_str(a, env, facts) + [("lit", lit)]
+            return _merge_lits(out)
+    return [("?", src(e))]
+
+
+_TYPE_TRUTH = {      # test text -> the runtime types (of the five the typed form knows) for which it is true
+    "isinstance(v, bool)": {"bool"}, "isinstance(v, int)": {"bool", "int"}, "isinstance(v, float)": {"float"}, "v is None": {"None"},
+    "isinstance(v, (dict, list))": set(), "isinstance(v, str)": {"str"}, "v is not None": {"bool", "int", "float", "str"},
+    "isinstance(v, (list, dict))": set(),
+}
+_WANT_SHAPE = {"bool": [("lit", "bool:"), ("Q",)], "int": [("lit", "int:"), ("Q",)], "float": [("lit", "float:"), ("Q",)], "None": [("lit", "NoneType:")],
+               "str": [("Q",)]}
+
+
+def _encoder_shapes(chk, enc):
+    """What the typed form puts on the line for each kind of value, by evaluating the string expressions along every feasible path of one
+    trip of the parameter loop (assignments, +, '..{}..'.format, conditional expressions decided by the path's own tests): the appended
+    piece is quote(k,'') '=' <value> '&', and <value> is, for every runtime type the path's tests admit, exactly that type's wire form
+    (tag + str(v) percent-encoded once with no safe characters; the None tag alone; an untagged string encoded once).  Returns True when
+    every path could be evaluated - then this verdict replaces the spelling-bound clauses below."""
+    from sa.helpers import feasible_paths
+    cfg = enc.cfg()
+    loops = [h for h in cfg.nodes if h.kind == "loop" and "kwargs.items()" in src(h.ast.iter)]
+    accs = [n for n in cfg.nodes if n.kind == "stmt" and isinstance(n.ast, ast.AugAssign) and isinstance(n.ast.op, ast.Add) and isinstance(n.ast.target, ast.Name) and
+            loops and any(y is n.ast for st in loops[0].ast.body for y in ast.walk(st))]
+    if len(loops) != 1 or len(accs) != 1:
+        return False
+    head, acc = loops[0], accs[0]
+    it = [x for x in cfg.succs(head.id, True) if cfg.nodes[x].kind == "branch" and cfg.nodes[x].tag == "iter"]
+    if not it:
+        return False
+    def piece_for(path, facts):
+        env = {}
+        for nid in path:
+            n = cfg.nodes[nid]
+            if n.kind != "stmt" or nid == acc.id:
+                continue
+            if isinstance(n.ast, ast.Assign) and len(n.ast.targets) == 1 and isinstance(n.ast.targets[0], ast.Name):
+                env[n.ast.targets[0].id] = _sym_str(n.ast.value, env, facts)
+            elif isinstance(n.ast, ast.AugAssign) and isinstance(n.ast.target, ast.Name) and isinstance(n.ast.op, ast.Add):
+                env[n.ast.target.id] = _merge_lits(env.get(n.ast.target.id, [("?", n.ast.target.id)]) + _sym_str(n.ast.value, env, facts))
+        return _merge_lits(_sym_str(acc.ast.value, env, facts))
+
+    results = []
+    for path, facts in feasible_paths(cfg, it[0], [acc.id]):
+        if head.id in path[1:]:
+            continue
+        types = {"bool", "int", "float", "None", "str"}
+        known = True
+        for k, v in facts.items():
+            kk = k[4:] if k.startswith("not ") else k
+            vv = (not v) if k.startswith("not ") else v
+            if kk in _TYPE_TRUTH:
+                types &= _TYPE_TRUTH[kk] if vv else (types - _TYPE_TRUTH[kk])
+            elif "v" in {y.id for y in ast.walk(ast.parse(kk, mode="eval")) if isinstance(y, ast.Name)}:
+                known = False       # a test on the value that is not a type test: the branch taken depends on more than the type
+        for t in sorted(types):
+            ft = dict(facts)
+            for test, ts in _TYPE_TRUTH.items():
+                ft.setdefault(test, t in ts)
+            results.append((path, facts, piece_for(path, ft), t, known))
+    if not results or any(any(tok[0] == "?" for tok in piece) for _, _, piece, _, _ in results):
+        return False
+    covered = set()
+    for path, facts, piece, t, known in results:
+        rest = list(piece[1:])
+        ok_frame = len(piece) >= 2 and piece[0] == ("QK",) and rest[0][0] == "lit" and rest[0][1].startswith("=") and rest[-1][0] == "lit" and rest[-1][1].endswith("&")
+        chk.ob("LAYER-1", "each parameter is appended as quote(k, '') '=' value '&' (name encoded once, nothing else between the pairs)", ok_frame,
+               enc.where(acc.ast), detail="appended piece: %s" % (piece,), construct=enc.ident, text="pair frame %s" % (piece[:2],))
+        if not ok_frame:
+            continue
+        rest[0] = ("lit", rest[0][1][1:])
+        rest[-1] = ("lit", rest[-1][1][:-1])
+        val = _merge_lits(rest)
+        covered.add(t)
+        ok = val == _WANT_SHAPE[t]
+        rule = "TABLE-9" if [x for x in val if x[0] == "lit"] != [x for x in _WANT_SHAPE[t] if x[0] == "lit"] else "LAYER-1"
+        chk.ob(rule if not ok else "TABLE-9", "a %s value is sent as %s" % (t, _fmt_shape(_WANT_SHAPE[t])), ok, enc.where(acc.ast),
+               detail="sent as %s on the path with %s" % (_fmt_shape(val), sorted((k, v) for k, v in facts.items() if "v" in k)), construct=enc.ident,
+               text="wire form of %s: %s" % (t, _fmt_shape(val)))
+        if not known:
+            chk.ob("TABLE-9", "the wire form of a value depends on its type only", False, enc.where(acc.ast),
+                   detail="path decided by %s" % sorted(facts.items()), construct=enc.ident, text="wire form decided by a value test")
+    chk.ob("TABLE-9", "every kind of value (bool, int, float, None, str) has a path to the line", covered == set(_WANT_SHAPE), enc.where(),
+           detail="covered %s" % sorted(covered), construct=enc.ident, text="kinds covered %s" % sorted(covered))
+    return True
+
+
+def _fmt_shape(toks):
+    return " + ".join(repr(t[1]) if t[0] == "lit" else {"Q": "quote(str(v), '')", "QK": "quote(k, '')", "RAW": "str(v)"}.get(t[0], "?") for t in toks) or "''"
+
+
 def check(chk):
     repo = chk.repo
     chk.explanation = ("C19: layer counting of quote/unquote on every branch of the encoder and decoder; tag tests on the wire form; "
@@ -58,76 +200,83 @@ def check(chk):
     _memo_rule(chk, repo, tagf)
     ecfg = tagf.cfg()
 
-    class _V:       # a value definition: an assignment to `value`, or (in a helper) a returned expression
-        def __init__(self, node, value):
-            self.id, self.lineno = node.id, node.lineno
+    # what each kind of value looks like on the line: decided on the string shapes when every path can be evaluated; the clauses bound to the
+    # present spelling (assignments to `value`, one `.format` per tag) apply only when it cannot (tagging moved into a helper, unknown calls)
+    shapes_done = tagf is enc and _encoder_shapes(chk, enc)
+    chk.ob("TABLE-9", "the encoder's wire forms are decided %s" % ("by evaluating the string shapes of every path" if shapes_done else "on the spelling-bound clauses"),
+           True, enc.where(), nontrivial=False)
+    if not shapes_done:
+        class _V:       # a value definition: an assignment to `value`, or (in a helper) a returned expression
+            def __init__(self, node, value):
+                self.id, self.lineno = node.id, node.lineno
 
-            class _A:
-                pass
-            self.ast = _A()
-            self.ast.value = value
-            self.ast.lineno = node.lineno
-            self.node_ast = node.ast
-    vdefs = [n for n in ecfg.nodes_where(lambda n: n.kind == "stmt" and isinstance(n.ast, ast.Assign) and src(n.ast.targets[0]) == "value")]
-    if tagf is not enc:
-        vdefs = vdefs + [_V(n, n.ast.value) for n in ecfg.nodes_where(lambda n: n.kind == "stmt" and isinstance(n.ast, ast.Return) and n.ast.value is not None
-                                                                        and src(n.ast.value) != "value")]
-    enc_ = enc
-    enc = tagf if tagf is not enc else enc
-    base = [n for n in vdefs if isinstance(n.ast.value, ast.Call) and call_attr(n.ast.value) in QUO]
-    ok = len(base) == 1 and _layers(base[0].ast.value)[0] == 1 and src(base[0].ast.value.args[0]) == "str(v)" and \
-        (len(base[0].ast.value.args) > 1 and src(base[0].ast.value.args[1]) == "''")
-    chk.ob("LAYER-1", "the encoder percent-encodes str(v) exactly once with no safe characters (so ':' '&' '=' '%' '+' never appear raw in a value)", ok,
-           enc.where(), detail=src(base[0].ast.value) if base else "", construct=enc.ident, text="encoder quote " + (src(base[0].ast.value) if base else ""))
-    tags = {}
-    order = []
-    for n in vdefs:
-        v = n.ast.value
-        if isinstance(v, ast.Call) and call_attr(v) == "format" and isinstance(v.func.value, ast.Constant):
-            tag = v.func.value.value.split("{")[0]
-            g = ecfg.guards_at(n.id)
-            ty = [k for k, val in g.items() if k.startswith("isinstance(v, ") and val is True]
-            tags[tag] = ty[0][len("isinstance(v, "):-1] if ty else "?"
-            order.append((n.lineno, tag))
-            chk.ob("LAYER-1", "typed value `%s` is the tag plus the once-encoded text" % tag, [src(a) for a in v.args] == ["value"], enc.where(n.ast),
-                   construct=enc.ident, text="tagged value " + tag)
-        elif isinstance(v, ast.Constant) and isinstance(v.value, str) and v.value.endswith(":"):
-            tags[v.value] = "None"
-            order.append((n.lineno, v.value))
-    chk.ob("TABLE-9", "the encoder tags bool, int, float and None", tags == {"bool:": "bool", "int:": "int", "float:": "float", "NoneType:": "None"}, enc.where(),
-           detail=str(tags), construct=enc.ident, text="encoder tags %s" % sorted(tags.items()))
-    # bool before int: the int branch is only reached when isinstance(v, bool) was false
-    for n in vdefs:
-        v = n.ast.value
-        if isinstance(v, ast.Call) and call_attr(v) == "format" and isinstance(v.func.value, ast.Constant) and v.func.value.value.startswith("int:"):
-            g = ecfg.guards_at(n.id)
-            chk.ob("TABLE-9", "bool is tested before int (bool is a subclass of int)", g.get("isinstance(v, bool)") is False, enc.where(n.ast),
-                   detail="guards %s" % sorted(g.items()), construct=enc.ident, text="bool before int")
-    # exactness of the type dispatch: every value of a type takes that type's branch (no extra condition, no extra alternative)
-    from sa.helpers import elif_chain_exact
-    chain = sorted([n for n in vdefs if hasattr(n, "kind") and not (isinstance(n.ast.value, ast.Call) and call_attr(n.ast.value) in QUO)], key=lambda n: n.lineno)
-    if len(chain) >= 5:
-        for n, why in elif_chain_exact(ecfg, chain):
-            chk.ob("TABLE-9", "the encoder's type dispatch is exact: each value takes the branch of its type", False, enc.where(n.ast), detail=why, construct=enc.ident,
-                   text="encoder dispatch: " + why[:60])
-        chk.ob("TABLE-9", "the encoder's type dispatch has one branch per tagged type plus the plain-string branch (%d)" % len(chain), True, enc.where(), nontrivial=False)
-    enc = enc_
-    ecfg = enc.cfg()
-    # every parameter ends up on the line: the pair is *appended* to the string built so far, for every parameter the loop gets to
-    accs = [n for n in ecfg.nodes if n.kind == "stmt" and isinstance(n.ast, (ast.AugAssign, ast.Assign)) and
-            src(n.ast.target if isinstance(n.ast, ast.AugAssign) else n.ast.targets[0]) == "kwarg_string" and any(y is n.ast for lp_ in ast.walk(enc.node)
-            if isinstance(lp_, ast.For) for y in ast.walk(lp_))]
-    ok = len(accs) == 1 and isinstance(accs[0].ast, ast.AugAssign) and isinstance(accs[0].ast.op, ast.Add) and "format(quote(k, '')" in src(accs[0].ast.value)
-    if ok:
-        from sa.helpers import inloop_guards
-        from sa.cfg import canon_fact
-        lh_ = [h for h in ecfg.nodes if h.kind == "loop" and any(y is accs[0].ast for y in ast.walk(h.ast))]
-        ok = bool(lh_) and inloop_guards(ecfg, accs[0].id, lh_[-1].id) == {canon_fact("isinstance(v, (dict, list))", False)}
-    chk.ob("LAYER-1", "every parameter's name=value pair is appended to the line (none is overwritten or skipped)", ok, enc.where(), construct=enc.ident,
-           text="pairs accumulated")
-    kq = [c for c in enc.calls() if call_attr(c) in QUO and src(c.args[0]) == "k"]
-    chk.ob("LAYER-1", "parameter names are percent-encoded once as well", len(kq) == 1 and src(kq[0].args[1]) == "''", enc.where(), construct=enc.ident,
-           text="key quote")
+                class _A:
+                    pass
+                self.ast = _A()
+                self.ast.value = value
+                self.ast.lineno = node.lineno
+                self.node_ast = node.ast
+        vdefs = [n for n in ecfg.nodes_where(lambda n: n.kind == "stmt" and isinstance(n.ast, ast.Assign) and src(n.ast.targets[0]) == "value")]
+        if tagf is not enc:
+            vdefs = vdefs + [_V(n, n.ast.value) for n in ecfg.nodes_where(lambda n: n.kind == "stmt" and isinstance(n.ast, ast.Return) and n.ast.value is not None
+                                                                            and src(n.ast.value) != "value")]
+        enc_ = enc
+        enc = tagf if tagf is not enc else enc
+        base = [n for n in vdefs if isinstance(n.ast.value, ast.Call) and call_attr(n.ast.value) in QUO]
+        ok = len(base) == 1 and _layers(base[0].ast.value)[0] == 1 and src(base[0].ast.value.args[0]) == "str(v)" and \
+            (len(base[0].ast.value.args) > 1 and src(base[0].ast.value.args[1]) == "''")
+        chk.ob("LAYER-1", "the encoder percent-encodes str(v) exactly once with no safe characters (so ':' '&' '=' '%' '+' never appear raw in a value)", ok,
+               enc.where(), detail=src(base[0].ast.value) if base else "", construct=enc.ident, text="encoder quote " + (src(base[0].ast.value) if base else ""))
+        tags = {}
+        order = []
+        for n in vdefs:
+            v = n.ast.value
+            if isinstance(v, ast.Call) and call_attr(v) == "format" and isinstance(v.func.value, ast.Constant):
+                tag = v.func.value.value.split("{")[0]
+                g = ecfg.guards_at(n.id)
+                ty = [k for k, val in g.items() if k.startswith("isinstance(v, ") and val is True]
+                tags[tag] = ty[0][len("isinstance(v, "):-1] if ty else "?"
+                order.append((n.lineno, tag))
+                chk.ob("LAYER-1", "typed value `%s` is the tag plus the once-encoded text" % tag, [src(a) for a in v.args] == ["value"], enc.where(n.ast),
+                       construct=enc.ident, text="tagged value " + tag)
+            elif isinstance(v, ast.Constant) and isinstance(v.value, str) and v.value.endswith(":"):
+                tags[v.value] = "None"
+                order.append((n.lineno, v.value))
+        chk.ob("TABLE-9", "the encoder tags bool, int, float and None", tags == {"bool:": "bool", "int:": "int", "float:": "float", "NoneType:": "None"}, enc.where(),
+               detail=str(tags), construct=enc.ident, text="encoder tags %s" % sorted(tags.items()))
+        # bool before int: the int branch is only reached when isinstance(v, bool) was false
+        for n in vdefs:
+            v = n.ast.value
+            if isinstance(v, ast.Call) and call_attr(v) == "format" and isinstance(v.func.value, ast.Constant) and v.func.value.value.startswith("int:"):
+                g = ecfg.guards_at(n.id)
+                chk.ob("TABLE-9", "bool is tested before int (bool is a subclass of int)", g.get("isinstance(v, bool)") is False, enc.where(n.ast),
+                       detail="guards %s" % sorted(g.items()), construct=enc.ident, text="bool before int")
+        # exactness of the type dispatch: every value of a type takes that type's branch (no extra condition, no extra alternative)
+        from sa.helpers import elif_chain_exact
+        chain = sorted([n for n in vdefs if hasattr(n, "kind") and not (isinstance(n.ast.value, ast.Call) and call_attr(n.ast.value) in QUO)], key=lambda n: n.lineno)
+        if len(chain) >= 5:
+            for n, why in elif_chain_exact(ecfg, chain):
+                chk.ob("TABLE-9", "the encoder's type dispatch is exact: each value takes the branch of its type", False, enc.where(n.ast), detail=why, construct=enc.ident,
+                       text="encoder dispatch: " + why[:60])
+            chk.ob("TABLE-9", "the encoder's type dispatch has one branch per tagged type plus the plain-string branch (%d)" % len(chain), True, enc.where(), nontrivial=False)
+        enc = enc_
+        ecfg = enc.cfg()
+        # every parameter ends up on the line: the pair is *appended* to the string built so far, for every parameter the loop gets to
+        accs = [n for n in ecfg.nodes if n.kind == "stmt" and isinstance(n.ast, (ast.AugAssign, ast.Assign)) and
+                src(n.ast.target if isinstance(n.ast, ast.AugAssign) else n.ast.targets[0]) == "kwarg_string" and any(y is n.ast for lp_ in ast.walk(enc.node)
+                if isinstance(lp_, ast.For) for y in ast.walk(lp_))]
+        ok = len(accs) == 1 and isinstance(accs[0].ast, ast.AugAssign) and isinstance(accs[0].ast.op, ast.Add) and "format(quote(k, '')" in src(accs[0].ast.value)
+        if ok:
+            from sa.helpers import inloop_guards
+            from sa.cfg import canon_fact
+            lh_ = [h for h in ecfg.nodes if h.kind == "loop" and any(y is accs[0].ast for y in ast.walk(h.ast))]
+            ok = bool(lh_) and inloop_guards(ecfg, accs[0].id, lh_[-1].id) == {canon_fact("isinstance(v, (dict, list))", False)}
+        chk.ob("LAYER-1", "every parameter's name=value pair is appended to the line (none is overwritten or skipped)", ok, enc.where(), construct=enc.ident,
+               text="pairs accumulated")
+        kq = [c for c in enc.calls() if call_attr(c) in QUO and src(c.args[0]) == "k"]
+        chk.ob("LAYER-1", "parameter names are percent-encoded once as well", len(kq) == 1 and src(kq[0].args[1]) == "''", enc.where(), construct=enc.ident,
+               text="key quote")
+
     # JSON branch
     jn = [n for n in ecfg.nodes_where(lambda n: n.kind == "stmt" and isinstance(n.ast, ast.Assign) and src(n.ast.targets[0]) == "json_needed" and
                                       src(n.ast.value) == "True")]
@@ -446,6 +595,8 @@ def _frame_rules(chk, cn, f, cfg):
 def battery():
     from sa.battery import M
     return [
+        M("tag as prefix, None gets a body too", BS, "        value = quote(str(v), '')\n\n        if isinstance(v, bool):  # bool isinstance of int, so this goes first\n            value = 'bool:{}'.format(value)\n        elif isinstance(v, int):\n            value = 'int:{}'.format(value)\n        elif isinstance(v, float):\n            value = 'float:{}'.format(value)\n        elif v is None:\n            value = 'NoneType:'\n        else:  # cast anything else as a string\n            value = str(value)\n\n        kwarg_string += '{}={}&'.format(quote(k, ''),\n                                        value)", "        if isinstance(v, bool):\n            prefix = 'bool:'\n        elif isinstance(v, int):\n            prefix = 'int:'\n        elif isinstance(v, float):\n            prefix = 'float:'\n        elif v is None:\n            prefix = 'NoneType:'\n        else:\n            prefix = ''\n\n        kwarg_string += '{}={}{}&'.format(quote(k, ''), prefix, quote(str(v), ''))", ("LAYER-1", "TABLE-9")),
+        M("twin: tag as prefix, None without a body", BS, "        value = quote(str(v), '')\n\n        if isinstance(v, bool):  # bool isinstance of int, so this goes first\n            value = 'bool:{}'.format(value)\n        elif isinstance(v, int):\n            value = 'int:{}'.format(value)\n        elif isinstance(v, float):\n            value = 'float:{}'.format(value)\n        elif v is None:\n            value = 'NoneType:'\n        else:  # cast anything else as a string\n            value = str(value)\n\n        kwarg_string += '{}={}&'.format(quote(k, ''),\n                                        value)", "        if isinstance(v, bool):\n            prefix = 'bool:'\n        elif isinstance(v, int):\n            prefix = 'int:'\n        elif isinstance(v, float):\n            prefix = 'float:'\n        elif v is None:\n            prefix = 'NoneType:'\n        else:\n            prefix = ''\n\n        kwarg_string += '{}={}{}&'.format(quote(k, ''), prefix, '' if v is None else quote(str(v), ''))", None),
         M("decoded commands memoised by line", BS, "def decode_command_string(bcp_string) -> Tuple[str, dict]:", "import functools\n\n\n@functools.lru_cache(maxsize=1024)\ndef decode_command_string(bcp_string) -> Tuple[str, dict]:", "MEMO-0"),
         M("double unquote of strings", BS, "            kwargs[name] = unquote_plus(value)\n\n    return", "            kwargs[name] = unquote_plus(unquote_plus(value))\n\n    return", "LAYER-1"),
         M("numbers not unquoted", BS, "            kwargs[name] = float(unquote_plus(value[6:]))", "            kwargs[name] = float(value[6:])", "LAYER-1"),
